@@ -102,13 +102,16 @@ def run_tiling(case):
             ptab = _tables(gbt, d, crops[:k], [])
             # the same block of tiles spelled the way users write it: open ends, negative stops / starts, a bare index for one row / column
             ty, tx = (idx(v) for v in gbt.shape.yx) if hasattr(gbt.shape, "yx") else tuple(gbt.shape)
-            style = (sum(q) + 3 * k + d.get("base", [0])[0]) % 4
+            style = (sum(q) + 3 * k + d.get("base", [0])[0]) % 5
 
             def spell(a, b, n, st):
                 if st == 1:
                     return slice(None if a == 0 else a, None if b == n else b)
                 if st == 2:
                     return slice(a - n if a > 0 else a, b - n if b < n else None)
+                if st == 4 and a == 0:
+                    # "the last n + 2": a negative start reaching beyond the first tile is the first tile, as for any sequence
+                    return slice(-(n + 2), b)
                 if st == 3 and b - a == 1:
                     return a if a < n - 1 else -1
                 return slice(a, b)
